@@ -136,7 +136,7 @@ func (x *Exec) freshResult(st *State, hint string, res *types.Tuple) *Val {
 }
 
 func (x *Exec) ghostCall(st *State, name string, args []*Val) {
-	x.sinkGuards(st, name)
+	x.sinkGuards(st, name, args)
 	k := "ncalls:" + name
 	cur := st.ghost[k]
 	if cur == nil {
@@ -160,17 +160,32 @@ func (x *Exec) ghostRet(st *State, name string, res *Val) {
 	if res == nil {
 		return
 	}
-	if res.K == kScalar {
-		st.ghost[fmt.Sprintf("lastret:%s:0", name)] = res.T
-		return
-	}
-	if res.K == kTuple {
-		for i, f := range res.F {
-			if f != nil && f.K == kScalar {
-				st.ghost[fmt.Sprintf("lastret:%s:%d", name, i)] = f.T
+	// scalars are recorded as they are; an interface result (typically an error) is recorded by
+	// its dynamic type tag (0 = nil), a pointer result by its object identity (0 = nil)
+	rec := func(i int, f *Val) {
+		if f == nil {
+			return
+		}
+		switch f.K {
+		case kScalar:
+			st.ghost[fmt.Sprintf("lastret:%s:%d", name, i)] = f.T
+		case kIface:
+			if f.Tag != nil {
+				st.ghost[fmt.Sprintf("lastret:%s:%d", name, i)] = f.Tag
+			}
+		case kPtr:
+			if f.L != nil && f.L.Idx == nil && f.L.Path == "" {
+				st.ghost[fmt.Sprintf("lastret:%s:%d", name, i)] = f.L.Base
 			}
 		}
 	}
+	if res.K == kTuple {
+		for i, f := range res.F {
+			rec(i, f)
+		}
+		return
+	}
+	rec(0, res)
 }
 
 func inModule(f *ssa.Function) bool {
@@ -198,7 +213,7 @@ func (x *Exec) callFunc(st *State, fr *Frame, fn *ssa.Function, args []*Val, bin
 		x.callByContract(st, fr, c, fn.Signature, fn, args, pos, cont)
 		return
 	}
-	if len(st.frames) > 0 && st.frames[0].con != nil && st.frames[0].con.has("opaquecalls") && fn.Parent() == nil && fn.Blocks != nil && inModule(fn) {
+	if len(st.frames) > 0 && st.frames[0].con != nil && st.frames[0].con.has("opaquecalls") && fn.Parent() == nil && fn.Blocks != nil && inModule(fn) && !isSmallLeaf(fn) {
 		// abstraction requested by the contract under verification (guard / effect obligations of
 		// large handlers): module functions without a contract are not inlined but treated as
 		// arbitrary code - everything reachable from the arguments is havoc'd, the call is counted
@@ -370,7 +385,25 @@ func (x *Exec) applyContract(st *State, fr *Frame, c *Contract, sig *types.Signa
 	// without the allocates flag) is contradictory and everything after the call verifies vacuously
 	reachableBefore := len(c.of("ensures", -1)) > 0 && !x.discover && x.sess.CheckWith(TTrue) == Sat
 	for _, cl := range c.of("ensures", -1) {
-		x.assume(st, sctx.evalBool(cl), "callee-post "+cname+"."+cl.ID)
+		var t *Term
+		func() {
+			// a postcondition about the callee's own calls with non-scalar arguments (lastarg of a
+			// slice) cannot be rendered for the caller: it is skipped, which only assumes less
+			defer func() {
+				if r := recover(); r != nil {
+					if se, ok := r.(specError); ok && sctx.calleeGhost != nil {
+						x.note("callee postcondition not usable at call sites (skipped): " + cname + "." + cl.ID + ": " + se.msg)
+						t = nil
+						return
+					}
+					panic(r)
+				}
+			}()
+			t = sctx.evalBool(cl)
+		}()
+		if t != nil {
+			x.assume(st, t, "callee-post "+cname+"."+cl.ID)
+		}
 	}
 	if reachableBefore && x.sess.CheckWith(TTrue) == Unsat {
 		if x.aborted == "" {
@@ -908,10 +941,12 @@ func parseExprOrDie(s string, cl *Clause) ast.Expr {
 // verification at a call to callee: E is evaluated in the state of the call, before the call is
 // counted. With the contract flag stopatsink the path ends there (what follows the sink cannot
 // undo the call, and the guard is the only obligation of such a contract).
-func (x *Exec) sinkGuards(st *State, name string) {
+func (x *Exec) sinkGuards(st *State, name string, args []*Val) {
 	if len(st.frames) == 0 || st.frames[0].con == nil {
 		return
 	}
+	x.sinkArgs = args // sinkarg(i) in the guard: argument i of the call being guarded
+	defer func() { x.sinkArgs = nil }()
 	con := st.frames[0].con
 	hit := false
 	for _, cl := range con.Clauses {
